@@ -3,6 +3,7 @@
   (goleveldb contract assumed: Write applies a batch atomically and in order; Close/Open preserve the applied writes.)
 -/
 import SV.Persist.Proofs
+import SV.FactsProofs.Batch
 namespace SV.Props.C09
 open SV SV.Persist
 
@@ -16,5 +17,11 @@ theorem cycles (maxBatch : Nat) (hm : 1 ≤ maxBatch) (ops : List Op) (k : Bytes
 /-- RangeKeys visits every flushed key exactly once with its flushed value; after a flush (Close) that is the whole map -/
 theorem range_after_close (p : P) (h : BInv p) :
     ((p.flush.range).map (·.1)).Nodup ∧ ∀ k, alookup k p.flush.range = p.abs k := range_after_flush p h
+
+/-- (regenerated fact) the pending batch's Put / Delete / Reset perform unconditionally exactly the model's three effects each -/
+theorem batch_operations_have_the_models_effects :
+    Facts.batchPutEffects = Facts.modelPutEffects ∧ Facts.batchDeleteEffects = Facts.modelDeleteEffects ∧
+    Facts.batchResetEffects = Facts.modelResetEffects :=
+  ⟨Facts.batch_put_effects, Facts.batch_delete_effects, Facts.batch_reset_effects⟩
 
 end SV.Props.C09
